@@ -24,7 +24,9 @@ import (
 	"go/types"
 	"os"
 	"path/filepath"
+	"regexp"
 	"sort"
+	"strconv"
 	"strings"
 )
 
@@ -179,6 +181,177 @@ type site struct {
 	Ord            int
 	Guards         []string
 	Contract       string
+	CB             *constBound // slice / index expressions `x[lo:hi]`, `x[i]` on a variable with constant bounds
+}
+
+// constBound: a slice / index expression on a variable with a constant upper bound, together with the
+// length guards that dominate it. The operand of each guard is resolved through `l := len(x)` aliases,
+// so that "the guard and the slice refer to the same value" is a decidable fact about the source
+// (Lean: Kit.C07.const_bounds_guarded_on_the_same_value).
+type lenGuard struct {
+	Operand string
+	MinLen  int    // the guard implies len(Operand) >= MinLen
+	Via     string // "" = the guard itself says len(Operand); otherwise the variable holding the length
+	Stale   bool   // Operand is assigned between the definition of Via and the site
+}
+
+type constBound struct {
+	Operand string
+	Need    int // hi of x[lo:hi]; i+1 of x[i]
+	Guards  []lenGuard
+}
+
+var reLenGuard = regexp.MustCompile(`^(!\()?(?:len\((\w+)\)|(\w+)) (==|!=|<=|>=|<|>) (\d+)\)?$`)
+
+// lenAliases: variables assigned exactly once in the body, from len(<variable>): alias -> (operand, assignment).
+func (w *walker) lenAliases() map[string]*ast.AssignStmt {
+	count := map[string]int{}
+	def := map[string]*ast.AssignStmt{}
+	if w.body == nil {
+		return def
+	}
+	ast.Inspect(w.body, func(n ast.Node) bool {
+		switch x := n.(type) {
+		case *ast.AssignStmt:
+			for i, l := range x.Lhs {
+				id, ok := l.(*ast.Ident)
+				if !ok {
+					continue
+				}
+				count[id.Name]++
+				if len(x.Lhs) == len(x.Rhs) {
+					if c, ok := x.Rhs[i].(*ast.CallExpr); ok && len(c.Args) == 1 {
+						if f, ok := c.Fun.(*ast.Ident); ok && f.Name == "len" {
+							if _, ok := c.Args[0].(*ast.Ident); ok {
+								def[id.Name] = x
+							}
+						}
+					}
+				}
+			}
+		case *ast.IncDecStmt:
+			if id, ok := x.X.(*ast.Ident); ok {
+				count[id.Name]++
+			}
+		}
+		return true
+	})
+	for n := range def {
+		if count[n] != 1 {
+			delete(def, n)
+		}
+	}
+	return def
+}
+
+// assignedIn: is the variable named `name` assigned, incremented or address-taken between the two positions?
+func (w *walker) assignedIn(name string, lo, hi token.Pos) bool {
+	found := false
+	ast.Inspect(w.body, func(n ast.Node) bool {
+		if n == nil || found {
+			return false
+		}
+		if n.End() <= lo || n.Pos() >= hi {
+			return n.Pos() < hi && n.End() > lo
+		}
+		switch x := n.(type) {
+		case *ast.AssignStmt:
+			for _, l := range x.Lhs {
+				if id, ok := l.(*ast.Ident); ok && id.Name == name && x.Pos() > lo {
+					found = true
+				}
+			}
+		case *ast.IncDecStmt:
+			if id, ok := x.X.(*ast.Ident); ok && id.Name == name {
+				found = true
+			}
+		case *ast.UnaryExpr:
+			if id, ok := x.X.(*ast.Ident); ok && x.Op == token.AND && id.Name == name {
+				found = true
+			}
+		}
+		return true
+	})
+	return found
+}
+
+func (w *walker) constBoundOf(n ast.Node, guards []string) *constBound {
+	var operand ast.Expr
+	need := -1
+	switch e := n.(type) {
+	case *ast.SliceExpr:
+		if e.High == nil {
+			return nil
+		}
+		v, ok := w.isConst(e.High)
+		if !ok {
+			return nil
+		}
+		if hi, exact := constant.Int64Val(v); exact && hi >= 0 {
+			operand, need = e.X, int(hi)
+		}
+	case *ast.IndexExpr:
+		v, ok := w.isConst(e.Index)
+		if !ok {
+			return nil
+		}
+		if i, exact := constant.Int64Val(v); exact && i >= 0 {
+			operand, need = e.X, int(i)+1
+		}
+	}
+	id, ok := operand.(*ast.Ident)
+	if !ok || need < 0 {
+		return nil
+	}
+	cb := &constBound{Operand: id.Name, Need: need}
+	aliases := w.lenAliases()
+	for _, g := range guards {
+		m := reLenGuard.FindStringSubmatch(g)
+		if m == nil {
+			continue
+		}
+		neg := m[1] != ""
+		if neg != strings.HasSuffix(g, ")") { // `!(l == 0)` has both; `l > 10` neither
+			continue
+		}
+		k, _ := strconv.Atoi(m[5])
+		min := -1
+		switch {
+		case !neg && m[4] == ">":
+			min = k + 1
+		case !neg && (m[4] == ">=" || m[4] == "=="):
+			min = k
+		case !neg && m[4] == "!=" && k == 0:
+			min = 1
+		case neg && m[4] == "<":
+			min = k
+		case neg && m[4] == "<=":
+			min = k + 1
+		case neg && m[4] == "==" && k == 0:
+			min = 1
+		case neg && m[4] == "!=":
+			min = k
+		}
+		if min < 0 {
+			continue
+		}
+		lg := lenGuard{MinLen: min}
+		if m[2] != "" {
+			lg.Operand = m[2]
+		} else if def, ok := aliases[m[3]]; ok {
+			for i, l := range def.Lhs {
+				if lid, ok := l.(*ast.Ident); ok && lid.Name == m[3] {
+					lg.Operand = def.Rhs[i].(*ast.CallExpr).Args[0].(*ast.Ident).Name
+				}
+			}
+			lg.Via = m[3]
+			lg.Stale = w.assignedIn(lg.Operand, def.End(), n.Pos())
+		} else {
+			continue
+		}
+		cb.Guards = append(cb.Guards, lg)
+	}
+	return cb
 }
 
 type walker struct {
@@ -462,7 +635,11 @@ func (w *walker) guards(n ast.Node) []string {
 }
 
 func (w *walker) emit(kind string, n ast.Node, contract string) {
-	*w.sites = append(*w.sites, site{Fn: w.fn, Kind: kind, Expr: w.text(n), Guards: w.guards(n), Contract: contract})
+	st := site{Fn: w.fn, Kind: kind, Expr: w.text(n), Guards: w.guards(n), Contract: contract}
+	if kind == "slice" || kind == "index" {
+		st.CB = w.constBoundOf(n, st.Guards)
+	}
+	*w.sites = append(*w.sites, st)
 }
 
 func (w *walker) typeOf(e ast.Expr) types.Type {
@@ -1301,6 +1478,26 @@ func main() {
 	}
 	b.WriteString(strings.Join(parts, " ++ "))
 	fmt.Fprintf(&b, "\n\ndef siteCount : Nat := %d\n\n", len(sites))
+	b.WriteString("/-- `len(operand) >= minLen` holds at the site: read off a dominating guard; `via` is the variable that holds the length (`l := len(raw)`) when the guard does not say `len(operand)` itself, `stale` that the operand is assigned between that definition and the site -/\nstructure LenGuard where\n  operand : String\n  minLen : Nat\n  via : String\n  stale : Bool\n  deriving Repr, DecidableEq\n\n")
+	b.WriteString("/-- `operand[lo:need]` / `operand[need-1]` with a constant bound on a variable, and the length guards that dominate it -/\nstructure ConstBound where\n  key : Nat\n  fn : String\n  expr : String\n  operand : String\n  need : Nat\n  lenGuards : List LenGuard\n  deriving Repr\n\n")
+	b.WriteString("def constBounds : List ConstBound := [\n")
+	first := true
+	for _, s := range sites {
+		if s.CB == nil {
+			continue
+		}
+		gs := []string{}
+		for _, g := range s.CB.Guards {
+			gs = append(gs, fmt.Sprintf("{ operand := %s, minLen := %d, via := %s, stale := %v }", leanStr(g.Operand), g.MinLen, leanStr(g.Via), g.Stale))
+		}
+		if !first {
+			b.WriteString(",\n")
+		}
+		first = false
+		key := fnv64(fmt.Sprintf("%s|%s|%s|%d", s.Fn, s.Kind, s.Expr, s.Ord))
+		fmt.Fprintf(&b, "  { key := 0x%016x, fn := %s, expr := %s, operand := %s, need := %d,\n    lenGuards := [%s] }", key, leanStr(s.Fn), leanStr(s.Expr), leanStr(s.CB.Operand), s.CB.Need, strings.Join(gs, ", "))
+	}
+	b.WriteString("\n]\n\n")
 	b.WriteString("/-- package-level facts the inventory relies on, re-established from the source on every run -/\ndef facts : List (String × String) := [\n")
 	for i, f := range facts {
 		sep := ","
